@@ -188,7 +188,7 @@ def canon_dict(ad):
     """Canonical form of TableCollection.asdict() output."""
     import numpy as np
     c = {"sequence_length": struct.pack("<d", ad["sequence_length"]).hex(),
-         "time_units": ad.get("time_units", ""),
+         "time_units": ad.get("time_units", "<absent>"),
          "metadata": bytes(ad.get("metadata", b"")).hex(),
          "metadata_schema": ad.get("metadata_schema", "")}
     for name in TABLE_ORDER:
